@@ -1,4 +1,4 @@
-import RlModel.Model.KernelEval
+import RlModel.Model.KernelFold
 open RlModel
 
 /-!
@@ -166,8 +166,32 @@ def cleanRow (chunk : List Col) (i : Nat) : List Col :=
     | .int w a => .int w (cleanSlot 0 a i)
     | .str a => .str (cleanSlot "" a i)
 
+def showKVal : KVal → String
+  | .null => "null"
+  | .bool b => if b then "b:true" else "b:false"
+  | .int w v => w.name ++ ":" ++ toString v
+  | .str s => "s:" ++ hexOfBytes s.toUTF8.toList
+
+/-- `(f <expr>)`: `fold=<some v|none|panic> ;; rt=<ok v|err|panic> ;; <tags>` -/
+def answerFold (e : KExpr) : String :=
+  let fold := match foldC e with
+    | .ok (some v) => "some " ++ showKVal v
+    | .ok none => "none"
+    | .err => "err"
+    | .panic => "panic"
+  let (r, tags) := evalK [] 1 e
+  let rt := match r with
+    | .ok c => "ok " ++ showKVal c.get0
+    | .err => "err"
+    | .panic => "panic"
+  "fold=" ++ fold ++ " ;; rt=" ++ rt ++ " ;; " ++ " ".intercalate (foldTags e ++ tags).eraseDups
+
 def answer (line : String) : String :=
   match Sexp.parse line with
+  | some (.list [.atom "f", e]) =>
+    match parseExpr e with
+    | some e => answerFold e
+    | none => "bad-request"
   | some (.list (.atom kind :: .atom n :: e :: arrs)) =>
     if kind != "k" && kind != "e" then "bad-request" else
     match n.toNat?, parseExpr e, parseArrs arrs with
